@@ -316,6 +316,52 @@ pub fn is_canonical_order(nodes: &[WNode]) -> bool {
     next == nodes.len()
 }
 
+fn with_children(n: &WNode, f: &dyn Fn(usize) -> usize) -> WNode {
+    match n {
+        WNode::Comp(a, b) => WNode::Comp(f(*a), f(*b)),
+        WNode::Case(a, b) => WNode::Case(f(*a), f(*b)),
+        WNode::Pair(a, b) => WNode::Pair(f(*a), f(*b)),
+        WNode::Disconnect(a, b) => WNode::Disconnect(f(*a), f(*b)),
+        WNode::InjL(a) => WNode::InjL(f(*a)),
+        WNode::InjR(a) => WNode::InjR(f(*a)),
+        WNode::Take(a) => WNode::Take(f(*a)),
+        WNode::Drop(a) => WNode::Drop(f(*a)),
+        WNode::Disconnect1(a) => WNode::Disconnect1(f(*a)),
+        other => other.clone(),
+    }
+}
+
+pub fn map_children(n: &WNode, f: &dyn Fn(usize) -> usize) -> WNode {
+    with_children(n, f)
+}
+
+/// Re-emit the part of the graph reachable from `root` in canonical order (left-to-right
+/// post-order, every node at its first visit).  `nodes` may be in any order (children may have
+/// larger indices than parents) as long as it is acyclic.
+pub fn canonicalize(nodes: &[WNode], root: usize) -> Vec<WNode> {
+    let mut new_index: Vec<Option<usize>> = vec![None; nodes.len()];
+    let mut out: Vec<WNode> = vec![];
+    let mut stack: Vec<(usize, usize)> = vec![(root, 0)];
+    while let Some((n, k)) = stack.pop() {
+        if new_index[n].is_some() {
+            continue;
+        }
+        let ch = nodes[n].children();
+        if k < ch.len() {
+            stack.push((n, k + 1));
+            if new_index[ch[k]].is_none() {
+                stack.push((ch[k], 0));
+            }
+        } else {
+            let idx = out.len();
+            let mapped = with_children(&nodes[n], &|c| new_index[c].expect("child emitted first"));
+            out.push(mapped);
+            new_index[n] = Some(idx);
+        }
+    }
+    out
+}
+
 pub fn render(nodes: &[WNode]) -> String {
     let mut s = String::new();
     for (i, n) in nodes.iter().enumerate() {
